@@ -7,6 +7,7 @@ Template directives (each on its own line, starting with //@):
   //@unit NAME                      //@serves C01 C02 ...        //@backend verus
   //@extract KIND PATH NAME [ARG]   KIND: fn | method | struct | enum | const | type |
                                           loopbody (ARG = loop ordinal) | closure (ARG = let-name; NAME = enclosing fn)
+                                         | macro (a `macro_rules!` definition, cut as text: pin or re-state its body)
                                     for `method`, ARG is a regex matched against the impl header
     //@rule Rn [min=K]              enable rewrite rule; fewer than K hits => anchor lost (exit 2)
     //@presub /regex/ => repl [min=K] [count=N]     substitution before the rules (R11)
@@ -40,7 +41,7 @@ import shutil
 import subprocess
 
 import rewrite
-from rustlex import AnchorLost, find_closure, find_fn, find_loops, find_type_item, mask, match_close
+from rustlex import AnchorLost, find_closure, find_fn, find_loops, find_macro, find_type_item, mask, match_close
 
 _LABEL = re.compile(r'\[\[L:\s*([^\]]+?)\s*\]\]')
 
@@ -323,6 +324,12 @@ class Unit:
             origin_line = src.count('\n', 0, ob + cl['open']) + 1
         elif kind in ('struct', 'enum', 'const', 'type', 'static'):
             a, s, e = find_type_item(src, kind, name, masked=m)
+            cut = src[a:e]
+            origin_line = src.count('\n', 0, a) + 1
+        elif kind == 'macro':
+            # a `macro_rules!` definition: cut as text so that a template can pin its body (exact-text anchor) or
+            # re-state it; Verus itself never sees macro definitions of /repo
+            a, s, e = find_macro(src, name, masked=m)
             cut = src[a:e]
             origin_line = src.count('\n', 0, a) + 1
         else:
